@@ -18,7 +18,7 @@ TECHNIQUE = 'exhaustive window/slice/index enumeration per generated file agains
 RULE = ('files from vlib.model.gen_file (bias: many segments, no-data/unlisted segments, 1-4 chunks, lengths 0-5) incl. truncated copies; '
         'non-trivial = channel whose values span >=2 chunks or segments; distinct = per-channel tuple of (segment, chunk length) pieces + type')
 ASSUMPTIONS = ['read_data is only specified for offset >= 0 and length >= 0 or None']
-REQUIRED = ['windows', 'slices', 'indices', 'windows_crossing_boundary', 'index_errors_checked', 'step0_checked',
+REQUIRED = ['long_files', 'windows', 'slices', 'indices', 'windows_crossing_boundary', 'index_errors_checked', 'step0_checked',
             'contract:channel._read_channel_data.len', 'truncated_files']
 N = {'quick': 640, 'thorough': 12000}
 STEPS = [None, 1, -1, 2, -2, 3, -3, 0]
@@ -27,6 +27,8 @@ STEPS = [None, 1, -1, 2, -2, 3, -3, 0]
 def gen_cases(tier, seed):
     for i in range(N[tier]):
         yield {'s': seed * 1000003 + i, 'cut': i % 4 == 3, 'raw_ts': i % 2 == 0}
+    for i in range(N[tier] // 40):
+        yield {'s': seed * 1000003 + i, 'cut': False, 'raw_ts': False, 'long': True}
 
 
 def shard_setup(ctx):
@@ -50,6 +52,10 @@ def shard_teardown(ctx):
 
 def build(case):
     rng = random.Random('c04/%d' % case['s'])
+    if case.get('long'):
+        from checks.c05 import long_file
+        segs = long_file(rng)
+        return segs, M.encode_file(segs)[0], None, rng
     segs = M.gen_file(rng, max_segs=8, max_chans=4, lens=(0, 1, 2, 3, 4, 5), chunks=(1, 2, 3, 4), p_nodata=0.25, p_newobj=0.5,
                       p_same=0.3, p_nometa=0.15, extra_objects=False, p_props=0.0, p_zero_chunks=0.15)
     blob, _, lay = M.encode_file(segs)
@@ -89,6 +95,8 @@ def run_case(case, ctx):
     segs, blob, cut, rng = build(case)
     if cut is not None:
         ctx.count('truncated_files')
+    if case.get('long'):
+        ctx.count('long_files')
     ctx.sample({'case': case, 'cut': cut, 'segments': [s.describe() for s in segs][:3]}, limit=2)
     try:
         eager = TdmsFile.read(io.BytesIO(blob), raw_timestamps=case['raw_ts'])
